@@ -581,6 +581,22 @@ def apiVerifyVP (cfg : Cfg) (P : Crypto) (E : Env) (verifyCredentials : Option B
   | none => .err "vp-subject-error"
   | some s => verifyVP cfg P E (verifyCredentials.getD true) (!("did:nuts:".toList.isPrefixOf s.toList)) at_ vp
 
+/-- VCR.StoreCredential (vcr/store.go) — the network-ingest path (ambassador → StoreCredential): a credential whose id is already stored
+    is a no-op when the content is equal and an error otherwise; every OTHER credential has its signature verified at the transaction's
+    signing time — unconditionally, whoever issued it — before it is written.  Resolve / Search later verify WITHOUT signature check. -/
+def storeCredential (cfg : Cfg) (P : Crypto) (E : Env) (validAt : Option Time) (store : List Cred) (c : Cred) : Res (List Cred) :=
+  match (if c.id.isSome then store.find? (fun x => x.id == c.id) else none) with
+  | some x => if x == c then .ok store else .err "exists-with-different-content"
+  | none =>
+    match runChecks (signatureChecks cfg P E validAt c) c with
+    | .ok _ => .ok (c :: store)
+    | .err e => .err e
+    | .panic s => .panic s
+
+/-- VCR.Resolve: the stored credential with that id, if `Verify(cred, allowUntrusted = false, checkSignature = false, t)` accepts it -/
+def resolveStored (cfg : Cfg) (P : Crypto) (E : Env) (t : Option Time) (store : List Cred) (id : String) : Option Cred :=
+  (store.find? (fun x => x.id == some id)).filter (fun c => (verify cfg P E false false t c).isOk)
+
 /-- sqlWallet.List: the stored credentials that `Verify(cred, allowUntrusted = true, checkSignature = false, now)` accepts -/
 def walletList (cfg : Cfg) (P : Crypto) (E : Env) (stored : List Cred) : List Cred :=
   stored.filter (fun c => (verify cfg P E true false none c).isOk)
